@@ -57,6 +57,9 @@ def run(ctx, prop):
         unfl = [o for o in sc.obs if o[0] == "C14.R2.buffered-writer-flushed" and not o[2]]
         ctx.ob("C14.positive-control.unflushed-bufwriter", "controls/pos", "controls/pos/src/lib.rs", bool(unfl), "positive-control",
                "the buffered-writer rule fires on the BufWriter dropped without flush in the control crate: %s" % bool(unfl), nontrivial=False)
+        eda = c14.error_discarding_adaptors(F)
+        ctx.ob("C14.positive-control.error-discarding-adaptor", "controls/pos", "controls/pos/src/lib.rs", any("load_all" in h[0] for h in eda) and any("write_quietly" in h[0] for h in eda),
+               "positive-control", "the adaptor rule fires on flat_map over io::Result and on io::Result::ok() in the control crate: %s" % [h[:2] for h in eda][:3], nontrivial=False)
         ctx.ob("C14.positive-control.dropped-result", "controls/pos", "controls/pos/src/lib.rs", bool(dropped), "positive-control",
                "the result-consumed rule fires on `let _ = w.write_all(..)` in the control crate: %s" % bool(dropped), nontrivial=False)
     elif prop == "C07":
@@ -82,8 +85,22 @@ def run(ctx, prop):
         hits = c10.consumed_then_handed_on(F)
         ctx.ob("C10.positive-control.iterator-past-rejected-item", "controls/pos", "controls/pos/src/lib.rs", any("scan_and_hand_on" in h[0] for h in hits), "positive-control",
                "the rule fires on the scan loop of the control crate that returns its iterator after a rejecting break: %s" % hits, nontrivial=False)
-    if prop in ("C05", "C17"):
+
+
+def run_widths(ctx, prop):
+    """Positive controls of the width rules W1/W2/W4/W5 (zero-count rules registered for every property)."""
+    F = facts()
+    if True:
         import widths
         w1, w2 = widths.scan(F)
         ctx.ob("%s.positive-control.lossy-narrowing" % prop, "controls/pos", "controls/pos/src/lib.rs", any("narrow_len" in h[0] for h in w1) and any("narrow_sum" in h[0] for h in w2),
                "positive-control", "the width rules fire on `len as u32 as u64` and `(a + 1) as usize` in the control crate: %s / %s" % (w1[:2], w2[:2]), nontrivial=False)
+        w4 = widths.advisory_scan(F)
+        ctx.ob("%s.positive-control.advisory-quantity" % prop, "controls/pos", "controls/pos/src/lib.rs", any("trust_hint" in h[0] for h in w4) and any("by_capacity" in h[0] for h in w4),
+               "positive-control", "the advisory-quantity rule fires on `vec![false; size_hint().0]` and on a branch on capacity() in the control crate: %s" % [h[:2] for h in w4][:3], nontrivial=False)
+        w6 = widths.lossy_adaptor_scan(F)
+        ctx.ob("%s.positive-control.take-while-on-borrowed-iterator" % prop, "controls/pos", "controls/pos/src/lib.rs", any("groups_below" in h[0] and h[3] is True for h in w6),
+               "positive-control", "the lossy-adaptor rule fires on `iter.by_ref().take_while(..)` in a loop in the control crate: %s" % [h[:2] for h in w6][:2], nontrivial=False)
+        w5, _ = widths.shift_scan(F)
+        ctx.ob("%s.positive-control.shift-by-width" % prop, "controls/pos", "controls/pos/src/lib.rs", any("shift_by_width" in h[0] for h in w5),
+               "positive-control", "the shift-count rule fires on `1u64 << w.min(64)` in the control crate: %s" % [h[:2] for h in w5][:2], nontrivial=False)
